@@ -133,6 +133,20 @@ Theorem C15_next_step : forall (I : Type) (G : (I -> R) -> I -> R) (L : R),
 Proof. exact next_step_accepted. Qed.
 Print Assumptions C15_next_step.
 
+(** In particular for non-expansive systems ([L] <= 1) no variable moves by more than the
+    accepted bound: the tolerance, absolute or relative to the largest variable (2e-4 when
+    values near zero were accepted). *)
+Theorem C15_next_step_nonexpansive : forall (I : Type) (G : (I -> R) -> I -> R) (L : R),
+  (forall u v d, (forall j, (Rabs (u j - v j) <= d)%R) -> forall i, (Rabs (G u i - G v i) <= L * d)%R) ->
+  forall (lastv prev : I -> R) (tol M : R),
+  (0 <= L <= 1)%R ->
+  (forall i, lastv i = G prev i) ->
+  (forall j, acceptR tol (lastv j) (prev j) = true) ->
+  (forall j, (Rabs (lastv j) <= M)%R) -> (0 <= tol)%R ->
+  forall i, (Rabs (G lastv i - lastv i) <= Rmax tol (Rmax (tol * M) (2 * (1 / 10000))))%R.
+Proof. exact next_step_nonexpansive. Qed.
+Print Assumptions C15_next_step_nonexpansive.
+
 (** Recorded finding D15b: for an expansive system ([L] = 3) a state accepted at tolerance
     1e-4 is followed by a period that the same test rejects. *)
 Theorem C15_next_step_expansive_refuted :
@@ -143,6 +157,18 @@ Theorem C15_next_step_expansive_refuted :
     acceptR (1 / 10000) (G3 lastv tt) (lastv tt) = false.
 Proof. split; [exact G3_lipschitz|exact next_step_expansive_refuted]. Qed.
 Print Assumptions C15_next_step_expansive_refuted.
+
+(** Recorded finding D15c: a non-expansive system ([L] = 1) with variables of very different
+    sizes; all accepted at 1e-4, then the small variable moves by 9 percent.  The bound of
+    [C15_next_step] holds (it is relative to the LARGEST variable), the per-variable reading
+    of the property's first sentence does not. *)
+Theorem C15_next_step_mixed_scale_refuted :
+  (forall u v d, (forall j, (Rabs (u j - v j) <= d)%R) -> forall i, (Rabs (Grot u i - Grot v i) <= 1 * d)%R) /\
+  let lastv := Grot prev_rot in
+  (forall j, acceptR (1 / 10000) (lastv j) (prev_rot j) = true) /\
+  acceptR (1 / 10000) (Grot lastv X2) (lastv X2) = false.
+Proof. split; [exact Grot_nonexpansive|exact next_step_mixed_scale_refuted]. Qed.
+Print Assumptions C15_next_step_mixed_scale_refuted.
 
 (** Non-vacuity on IEEE doubles: x converges to 2, d drifts; with d excluded the search
     succeeds and installs 2 for x and LAG_x; without the exclusion it fails AFTER having
